@@ -1,3 +1,5 @@
+from vlib import schema_gen_extra
+
 ID = "C08"
 CLUSTER = "schema"
 EXTRACT_V = "ExtractSchema.v"
@@ -25,8 +27,7 @@ LEVEL_TEXT = ("Theorems in coq/Props/C08.v about coq/Schema/Sem.v (impl-model of
               "types on random schemas composed of every strategy, reading both views with every read form.")
 LEVEL_NOTE = ("Trusted: Coq kernel, extraction, the Go harness (schema/value generators, dumper) and the hand-written "
               "model of bindnode (tied by the differential run only). Schemas are finite trees (no cyclic types), map "
-              "keys are strings, implicit values and custom converters are not modelled. Generated code is covered "
-              "by C13.")
+              "keys are strings, implicit values and custom converters are not modelled. Generated code: a share of the values runs on a freshly generated package (records valg).")
 TRUSTED = ["bindnode (node.go, repr.go, infer.go) and the schema DSL/compiler: hand-modelled in coq/Schema/Sem.v; tied by correspondence only",
            "dag-cbor codec: coq/Codec/Cbor.v (C02/C03); C08_bytes is stated over any codec with the round-trip law"]
 RULE = ("random well-formed schemas (all struct/union/enum strategies, nullable/optional, depth <= 4) x 12 values "
@@ -40,3 +41,8 @@ def classify(fs):
 
 def nontrivial(fs):
     return len(fs[2]) > 8
+
+
+def extra(ctx):
+    # both engines: a share of the cases runs on code generated afresh from the working tree's generator
+    return schema_gen_extra.compiles("c08", ctx)[1]
